@@ -1,6 +1,7 @@
 package props
 
 import (
+	"bytes"
 	"errors"
 	"fmt"
 	"math/rand/v2"
@@ -17,7 +18,7 @@ func init() {
 	register(&Prop{
 		ID:    "C19",
 		Level: "exploration",
-		Rule: "generated streams (clean, with continuity gaps, with adaptation-only packets interleaved) x predicates {PID set, continuity counter, PUSI, adaptation flags (RAI, PCR, discontinuity), per-packet coin flips, skip-all, skip-none} x " +
+		Rule: "generated streams (clean, with continuity gaps, with adaptation-only packets interleaved, with runs of 1023..6000 consecutive skipped packets) x predicates {PID set, continuity counter, PUSI, adaptation flags (RAI, PCR, discontinuity), per-packet coin flips, skip-all, skip-none} x " +
 			"{NextPacket, NextData}: output with the skipper compared with the output on the stream with those packets deleted; every skipper invocation logged (count, order, header/AF vs reference decoding); " +
 			"parsers {observer, replacer returning 0..3 synthetic data, failing on the n-th unit}: groups logged and compared with the model's units; distinct = hash(stream, predicate/parser); " +
 			"non-trivial = the predicate skipped ≥1 and kept ≥1 packet, or the parser saw ≥2 groups",
@@ -30,6 +31,7 @@ func init() {
 			need(m, &out, "skipper_callbacks_observed", 20000)
 			need(m, &out, "packets_skipped", 3000)
 			need(m, &out, "adaptation_only_packets_in_streams", 500)
+			need(m, &out, "long_skipped_runs", 8)
 			need(m, &out, "parser_groups_observed", 1000)
 			need(m, &out, "parser_replaced_units", 300)
 			need(m, &out, "parser_errors_surfaced", 20)
@@ -81,6 +83,7 @@ func predicates(r *rand.Rand, s *gen.Stream) []pred {
 }
 
 func runC19(c *mon.Ctx) {
+	longRuns(c)
 	n := c.Pick(1000, 120000)
 	for i := int64(0); i < n; i++ {
 		if !c.Mine("streams", i) {
@@ -135,6 +138,45 @@ func runC19(c *mon.Ctx) {
 		if i < 2 {
 			c.Sample("streams", map[string]any{"packets": len(s.Packets), "clean": clean, "predicates": "pid-set, continuity-counter, pusi, not-pusi, af-rai, af-pcr, has-af, coin, skip-all, skip-none"})
 		}
+	}
+}
+
+// longRuns: a run of N consecutive packets the predicate skips (null packets, N around 1024 and beyond) in the middle of a stream:
+// one call has to pass over all of them, the result must still equal the filtered stream's, without an error.
+func longRuns(c *mon.Ctx) {
+	n := c.Pick(8, 80)
+	for i := int64(0); i < n; i++ {
+		if !c.Mine("long-run", i) {
+			continue
+		}
+		r := c.Rng("long-run", i)
+		m := gen.RandomModel(r, gen.ModelOpts{MaxPES: 2, MaxPMT: 1, MaxSI: 1, MaxUnits: 3})
+		s0 := m.Build(r)
+		N := []int{1023, 1024, 1025, 2048, 2049, 3000 + r.IntN(3000), 1 + r.IntN(1500), 4096}[int(i)%8]
+		at := r.IntN(len(s0.Packets) + 1)
+		var pk []*astits.Packet
+		pk = append(pk, s0.Packets[:at]...)
+		for k := 0; k < N; k++ {
+			pk = append(pk, &astits.Packet{Header: astits.PacketHeader{PID: 0x1fff, HasPayload: true, ContinuityCounter: uint8(k & 15)}, Payload: bytes.Repeat([]byte{0xff}, 184)})
+		}
+		pk = append(pk, s0.Packets[at:]...)
+		s := &gen.Stream{Packets: pk}
+		s.Encode()
+		ref := make([]*astits.Packet, len(s.Packets))
+		for k := range s.Packets {
+			ref[k], _ = refts.DecodePacket(s.Bytes[k*188 : (k+1)*188])
+		}
+		for _, pr := range []pred{
+			{"null-pid-run", func(_ int, p *astits.Packet) bool { return p.Header.PID == 0x1fff }},
+			{"skip-all", func(int, *astits.Packet) bool { return true }},
+			{"skip-none", func(int, *astits.Packet) bool { return false }},
+		} {
+			for _, api := range []string{"packet", "data"} {
+				skipperCase(c, i, s, ref, pr, api)
+			}
+		}
+		c.Count("long_skipped_runs")
+		c.Max("longest_skipped_run", int64(N))
 	}
 }
 
